@@ -9,8 +9,11 @@ import Blue.Driver.Util
       `Ip<i>`                       ingester `i` found `should_stall_ingest` and parked on `stall`
       `Ia<i>:<l0>:<l0b>:<woken>`    ingester `i` installed its file; level 0 afterwards; sleepers
                                     on `compact` flagged by its `notify_all`
-      `Sy<i>` / `Sn<i>`             compactor `i` selected: something (goes in flight) / nothing
-                                    (parks on `compact`)
+      `Sy<i>` / `Sn<i>:<ongoing>`   compactor `i` selected: something (goes in flight) / nothing
+                                    (parks on `compact`), with the length of the `ongoing` list it
+                                    saw, which must be the number of compactions in flight
+      `A<i>`                        the compaction of compactor `i` failed and was released; the
+                                    thread returned and a fresh one continues under the same index
       `F<i>:<l0>:<l0b>:<woken>`     compactor `i` applied its compaction; level 0 afterwards;
                                     sleepers on `stall` flagged by its `notify_all`
       `Wi<i>:<n>` / `Wc<i>:<n>`     ingester / compactor `i` returned from its wait; `n` = 1 when a
@@ -69,13 +72,24 @@ def tok (a : Acc) (t : String) : Except String Acc :=
         else if s'.l0 != l0 || s'.l0b != l0b then .error "level0-differs"
         else fin s' ev
     | _ => .error "syntax"
-  else if t.startsWith "Sy" || t.startsWith "Sn" then
+  else if t.startsWith "Sy" then
     match optNat (t.drop 2).toString with
     | some i =>
       if s.compactors[i]? != some .running then .error "compactor-not-running"
-      else
-        let ev := Ev.select i (t.startsWith "Sy")
-        fin (step s ev) ev
+      else fin (step s (.select i true)) (.select i true)
+    | none => .error "syntax"
+  else if t.startsWith "Sn" then
+    match nats (t.drop 2).toString with
+    | some [i, n] =>
+      if s.compactors[i]? != some .running then .error "compactor-not-running"
+      else if n != ongoing s then .error "ongoing-differs-from-compactions-in-flight"
+      else fin (step s (.select i false)) (.select i false)
+    | _ => .error "syntax"
+  else if t.startsWith "A" then
+    match optNat (t.drop 1).toString with
+    | some i =>
+      if s.compactors[i]? != some .inflight then .error "compactor-not-in-flight"
+      else fin (step s (.abort i)) (.abort i)
     | none => .error "syntax"
   else if t.startsWith "F" then
     match nats (t.drop 1).toString with
@@ -114,7 +128,7 @@ def runToks : Acc → Nat → List String → Except String Acc
     | .ok a' => runToks a' (pos + 1) ts
 
 def handleRun (stallF stallB ni nc l0 l0b : Nat) (toks : List String) : String :=
-  let s0 : St := ⟨stallF, stallB, l0, l0b, List.replicate ni .running, List.replicate nc .running, false, true⟩
+  let s0 : St := ⟨stallF, stallB, l0, l0b, List.replicate ni .running, List.replicate nc .running, false, true, 0, true⟩
   match runToks { s := s0 } 0 toks with
   | .error e => s!"bad:{e}"
   | .ok a =>
